@@ -605,6 +605,49 @@ def methodcall (C : Codec) (K : KeyCodec) (dn : Str) (methodArg : Arg) (objectna
   .ok ([("CIMOperation".toList, "MethodCall".toList), ("CIMMethod".toList, methodname),
         ("CIMObject".toList, hdr)] ++ pragma, doc)
 
+/-! ### between `wbem_request` and the socket: what `requests` and `http.client` do with the header values
+
+mirrors pywbem/_cim_http.py: wbem_request (`req_headers.update(dict(cimxml_headers))`, `conn.session.post(...)`,
+  `except requests.exceptions.RequestException` -> pywbem ConnectionError)
+mirrors requests.utils: check_header_validity / _validate_header_part with `_VALID_HEADER_VALUE_RE_STR`
+  = `^\S[^\r\n]*\Z|^\Z`   (third party, pinned by K on every run)
+mirrors http.client: HTTPConnection.putheader (`value.encode('latin-1')`)                  (third party, likewise) -/
+
+/-- `Py_UNICODE_ISSPACE`: what `\s` matches in a str pattern -/
+def pyIsSpace (c : Char) : Bool :=
+  let n := c.toNat
+  (0x09 ≤ n && n ≤ 0x0D) || (0x1C ≤ n && n ≤ 0x20) || n == 0x85 || n == 0xA0 || n == 0x1680 ||
+  (0x2000 ≤ n && n ≤ 0x200A) || n == 0x2028 || n == 0x2029 || n == 0x202F || n == 0x205F || n == 0x3000
+
+/-- `^\S[^\r\n]*\Z|^\Z` -/
+def headerValueOk : Str → Bool
+  | [] => true
+  | c :: cs => !pyIsSpace c && cs.all (fun d => d != '\r' && d != '\n')
+
+/-- `value.encode('latin-1')` succeeds -/
+def latin1Ok (v : Str) : Bool := v.all (fun c => c.toNat < 256)
+
+/-- a request the operation method handed to `wbem_request`: refused by `requests` (InvalidHeader, re-raised by pywbem
+    as ConnectionError), refused by `http.client` (UnicodeEncodeError), or written to the connection -/
+def transport (r : Headers × Xml) : Except PyExc (Headers × Xml) :=
+  if !r.1.all (fun p => headerValueOk p.2) then .error .connectionError
+  else if !r.1.all (fun p => latin1Ok p.2) then .error .unicodeError
+  else .ok r
+
+/-- an intrinsic operation up to the socket -/
+def sendOp (C : Codec) (dn : Str) (spec : Req.OpSpec) (ns : Arg) (args : List (String × Arg)) :
+    Except PyExc (Headers × Xml) := do
+  let r ← runOp C dn spec ns args
+  transport r
+
+def sendInvoke (C : Codec) (K : KeyCodec) (dn : Str) (m obj : Arg) (params : List MParam) : Except PyExc (Headers × Xml) := do
+  let r ← methodcall C K dn m obj params
+  transport r
+
+def sendExport (C : Codec) (a : Arg) : Except PyExc (Headers × Xml) := do
+  let r ← exportIndication C a
+  transport r
+
 /-! ### listener responses -/
 
 def listenerEnvelope (msgid : Str) (rsp : Xml) : Xml :=
